@@ -123,7 +123,7 @@ SMALL_T = ("MCAws.tla", "MCAws.cfg", {})
 PLANS["C17"] = dict(kind="func", stages=[aws_stage([SMALL_Q, GRID_Q], [SMALL_T, GRID_T], max_q=900)],
                     rule="cases: every terminal behaviour of the small-step fleet model (size x fault point) and every point of the (min, max, desired, instances, d, "
                          "lifecycle, overrides, subnets) grid, each run through the real NodeGroup.IncreaseSize; non-trivial: every case (each is a distinct input)",
-                    required_facts=["fleet", "set-desired", "rejected", "fleet-success", "fleet-attach-several-batches"], assumptions=AWS_ASSUMPTIONS)
+                    required_facts=["fleet", "set-desired", "rejected", "fleet-success", "fleet-attach-several-batches", "del-then-increase"], assumptions=AWS_ASSUMPTIONS)
 PLANS["C18"] = dict(kind="func", stages=[aws_stage([SMALL_Q, GRID_Q], [SMALL_T, GRID_T], max_q=900)],
                     rule="cases: every terminal behaviour of the small-step fleet model: fleet sizes across the 20 and 1000 batch limits x {never ready, k-th attach fails for every k, "
                          "any terminate call fails, create fails} x failure counter 0 / 2, run through the real provider; non-trivial: a case in which some step failed",
